@@ -58,12 +58,15 @@ pub enum Alias {
     FifoHardlink,
     /// xcp -r t .  where t contains a FIFO (maps onto itself)
     DirWithFifoOwnParent,
+    /// xcp -r t /dev/shm/<other sandbox>/X  where X/t/f is a symbolic link back to the source file t/f:
+    /// the alias crosses a filesystem boundary
+    OtherFsTreeLinkBack,
 }
 
 const ALIASES: &[Alias] = &[
     Alias::DotSlash, Alias::DotDot, Alias::AbsVsRel, Alias::RelVsAbs, Alias::OwnDir, Alias::OwnSubDir, Alias::Symlink, Alias::SymlinkAbs,
     Alias::Hardlink, Alias::DirSymlinkT, Alias::DirOwnParent, Alias::DirOwnParentSlash, Alias::DirParentViaLink, Alias::DoubleSlashAbs, Alias::TargetDirOwn,
-    Alias::FifoDotSlash, Alias::SockDotDot, Alias::FifoHardlink, Alias::DirWithFifoOwnParent,
+    Alias::FifoDotSlash, Alias::SockDotDot, Alias::FifoHardlink, Alias::DirWithFifoOwnParent, Alias::OtherFsTreeLinkBack,
 ];
 
 #[derive(Clone, Debug, Serialize, Deserialize)]
@@ -207,6 +210,11 @@ fn alias_build(c: &AliasCase, root: &[u8]) -> (Vec<Ent>, Inv) {
             inv.dest = s(".");
             inv.recursive = true;
         }
+        Alias::OtherFsTreeLinkBack => {
+            // the destination (on tmpfs) is built and filled in by the judge
+            inv.sources = vec![s("t")];
+            inv.recursive = true;
+        }
     }
     (ents, inv)
 }
@@ -221,6 +229,21 @@ fn judge_alias(c: &AliasCase, rec: &mut Rec) -> Verdict {
     if let Err(e) = materialise(&sb.root, &ents) {
         return Verdict::Inconclusive(format!("materialise: {e}"));
     }
+    let mut inv = inv;
+    let _other = if c.alias == Alias::OtherFsTreeLinkBack {
+        let sb2 = match Sandbox::new_in("/dev/shm") {
+            Ok(s) => s,
+            Err(e) => return Verdict::Inconclusive(format!("sandbox on tmpfs: {e}")),
+        };
+        let back = join(&root, b"t/zz_file");
+        if let Err(e) = materialise(&sb2.root, &[Ent::dir(b"X"), Ent::dir(b"X/t"), Ent::link(b"X/t/zz_file", &back)]) {
+            return Verdict::Inconclusive(format!("materialise tmpfs: {e}"));
+        }
+        inv.dest = join(&sb2.rootb(), b"X");
+        Some(sb2)
+    } else {
+        None
+    };
     let pre = match snapshot(&sb.root) {
         Ok(s) => s,
         Err(e) => return Verdict::Inconclusive(format!("snapshot: {e}")),
@@ -419,7 +442,10 @@ fn judge_kill(c: &KillCase, rec: &mut Rec) -> Verdict {
                     }
                 }
             }
-            if !dsts.contains(&rel) {
+            // symlink()/mknod()/unlink() act on the final component itself: when the destination was given
+            // through a symbolic link (dlink -> d) that component *is* the designated destination
+            let through_link = matches!(model::resolve(&pre, &root, &rel, true), model::Res::Found(ref p) if dsts.contains(p));
+            if !dsts.contains(&rel) && !through_link {
                 return Verdict::faild(
                     format!("C03|trace|{}|mutating-call-outside-destination", driver),
                     format!("mutating call on a path that is no mapped destination: {}", e.short()),
